@@ -108,7 +108,28 @@ class LazyReiterable:
             self.probe()
 
 
-SRC_CLASS = {"pages": PageSource, "reiter": LazyReiterable}
+class Num(float):
+    """a float that can be tracked by a weak reference (a measurement record that behaves like its value)"""
+
+    __slots__ = ("__weakref__",)
+
+
+class NumSource(Source):
+    """stream of summable numbers (float subclass instances): `sum` / `accumulate` / `reduce(operator.add)` see the
+    tracked source items themselves, not values mapped from them"""
+
+    async def __anext__(self):
+        if self.probe is not None:
+            self.probe()
+        if self.i >= self.n:
+            raise StopAsyncIteration
+        it = Num(self.i % 7)
+        self.i += 1
+        self.refs.append(weakref.ref(it))
+        return it
+
+
+SRC_CLASS = {"pages": PageSource, "reiter": LazyReiterable, "nums": NumSource}
 
 
 def alive(refs):
@@ -161,6 +182,11 @@ AGGS = {
     "nlargest2_all_equal": (lambda S: A.nlargest(S[0], 2), 2, lambda i: 7),
     "min_ties": (lambda S: A.min(S[0]), 1, lambda i: i % 2), "max_all_equal": (lambda S: A.max(S[0]), 1, lambda i: 5),
     "sum_reiter": (lambda S: A.sum(A.map(lambda x: 1, S[0])), 0, None, "reiter"),
+    # the summed objects are the tracked items themselves, with every kind of start value
+    "sum_nums": (lambda S: A.sum(S[0]), 1, None, "nums"), "sum_nums_float_start": (lambda S: A.sum(S[0], 0.0), 1, None, "nums"),
+    "sum_nums_int_start": (lambda S: A.sum(S[0], 5), 1, None, "nums"), "sum_nums_num_start": (lambda S: A.sum(S[0], Num(1)), 1, None, "nums"),
+    "reduce_add_nums": (lambda S: A.reduce(lambda a, b: a + b, S[0]), 1, None, "nums"),
+    "max_nums": (lambda S: A.max(S[0]), 1, None, "nums"),
     "nlargest4_reiter": (lambda S: A.nlargest(S[0], 4), 4, None, "reiter"),
     "min_reiter": (lambda S: A.min(S[0]), 1, None, "reiter"),
 }
